@@ -140,8 +140,10 @@ impl<'a, P: for<'p> Protocol<'p>> DemoWriter<'a, P> {
         // Snap deltas always rely on the snap of the last tick in the demo.
         // They don't rely on the last keyframe.
         // For that, we always need to store the newest snap.
+        // The next snapshot must number its UUID types like the one it will be
+        // diffed against.
+        self.builder = new_snap.clone().recycle();
         self.snap = new_snap;
-        self.builder = old_snap.recycle();
         self.buf.clear();
         self.last_tick = tick;
         if is_keyframe {
